@@ -16,7 +16,8 @@ instr.install_plain()
 
 
 def replay_one(item):
-    from vf import core
+    from vf import core, rt
+    rt.set_width(item["case"].get("width", 256))
     mod = importlib.import_module("vf.harness." + item["harness"])
     make = getattr(mod, item["case"].get("make", "make"))
     try:
